@@ -342,6 +342,8 @@ func listOracle(c *oracleCtx) {
 	c05Identity(c)
 	rawStrings(c, "list")
 	everyStorePath(c)
+	typedNativeNils(c)
+	removalKeepsChildren(c)
 	c.rule = "operation sequences on a pool of live lists (4 initial pools incl. spare capacity and shared nested containers), every list compared with a sequence model after every step; a case is non-trivial when it contains a mutation or a derivation; distinct = distinct sequences"
 	if c.filter != nil {
 		for id := range c.filter {
